@@ -5,6 +5,8 @@ import Unimock.Model.Codegen.Method
 import Unimock.Model.Output
 import Unimock.Model.Codegen.Matching
 import Unimock.Model.Render
+import Unimock.Model.Typestate
+import Unimock.Model.Codegen.OutputKind
 /-!
 # Line protocol: parse scenarios, run them on the model, print the canonical trace
 
@@ -696,5 +698,79 @@ def runMsgCase (line : String) : String × String :=
       | _ => .failedVerification p pat true 0 0
     | _ => .mockNeverCalled p
   (get 1, render msg)
+
+/-! ## builder type-state cases: `tscase <id> entry=<e> calls=<c1,c2,..>` -/
+
+def parseTsEntry (s : String) : Typestate.Entry :=
+  if s == "next" then .nextCall else if s == "some" then .someCall else if s == "each" then .eachCall else .stubCall
+
+def parseTsCall (s : String) : Option Typestate.Call :=
+  if s == "retc" then some (.returns true) else if s == "retn" then some (.returns false)
+  else if s == "other" then some .other else if s == "once" then some .once
+  else if s == "ntimes" then some .nTimes else if s == "atleast" then some .atLeastTimes
+  else if s == "then" then some .then_ else none
+
+def runTsCase (toks : List String) : String :=
+  let e := parseTsEntry ((kv toks "entry").getD "some")
+  let cs := (((kv toks "calls").getD "").splitOn ",").filter (· ≠ "")
+  match cs.mapM parseTsCall with
+  | none => "bad-case"
+  | some calls =>
+    match Typestate.firstReject e calls with
+    | none => "accept"
+    | some k => s!"reject {k}"
+
+/-! ## output-kind cases: `kindcase <id> ty=<t>` with
+    t ::= n | r<e|s|l|p|u><i|m>(t) | o(t) | x(t,t) | v(t) | q(t) | g<Name>(t,..) | t(t,..) -/
+
+open Codegen.OutKind in
+mutual
+partial def parseTy (cs : List Char) : Option (Ty × List Char) :=
+  match cs with
+  | 'n' :: r => some (.named "Tok", r)
+  | 'r' :: l :: m :: '(' :: r =>
+    let lt : Lt := match l with | 'e' => .elided | 's' => .static | 'l' => .self_ | 'p' => .param | _ => .undeclared
+    (parseTy r).bind fun (t, r) => match r with | ')' :: r => some (.ref lt (m == 'm') t, r) | _ => none
+  | 'o' :: '(' :: r => (parseTyList r).map fun (ts, r) => (.app .option ts, r)
+  | 'x' :: '(' :: r => (parseTyList r).map fun (ts, r) => (.app .result ts, r)
+  | 'v' :: '(' :: r => (parseTyList r).map fun (ts, r) => (.app .vec ts, r)
+  | 'q' :: '(' :: r => (parseTyList r).map fun (ts, r) => (.app .poll ts, r)
+  | 't' :: '(' :: r => (parseTyList r).map fun (ts, r) => (.tuple ts, r)
+  | 'g' :: r =>
+    let name := r.takeWhile (· != '(')
+    match r.dropWhile (· != '(') with
+    | '(' :: r2 => (parseTyList r2).map fun (ts, r3) => (.app (.other (String.ofList name)) ts, r3)
+    | _ => none
+  | _ => none
+partial def parseTyList (cs : List Char) : Option (TyList × List Char) :=
+  match cs with
+  | ')' :: rest => some (.nil, rest)
+  | ',' :: rest => parseTyList rest
+  | _ => (parseTy cs).bind fun (t, r) => (parseTyList r).map fun (ts, r2) => (.cons t ts, r2)
+end
+
+mutual
+partial def showKind : Output.Kind → String
+  | .owning => "own" | .lending => "lend" | .staticRef => "sref"
+  | .shallowOpt => "shopt" | .shallowRes => "shres" | .shallowVec => "shvec"
+  | .deepOpt k => s!"dopt({showKind k})"
+  | .deepVec k => s!"dvec({showKind k})"
+  | .deepPoll k => s!"dpoll({showKind k})"
+  | .deepRes a b => s!"dres({showKind a},{showKind b})"
+  | .deepTup ks => s!"dtup[{showKindList ks}]"
+partial def showKindList : Output.KindList → String
+  | .nil => ""
+  | .cons k .nil => showKind k
+  | .cons k ks => showKind k ++ "," ++ showKindList ks
+end
+
+open Codegen.OutKind in
+def runKindCase (toks : List String) : String :=
+  match parseTy ((kv toks "ty").getD "").toList with
+  | some (t, []) =>
+    let r := determine t
+    let k := match toKind r.1 r.2 with | some k => showKind k | none => "none"
+    s!"{t.render} {renderDetermined r} {k}"
+  | _ => "parse-error"
 
 end Unimock.Driver
